@@ -9,7 +9,7 @@ TF = importlib.import_module('pdb2sql.transform')
 ID = 'C10'
 LEVEL = 'proof'
 CLUSTER = 'D'
-GEN_UNITS = ['rodrigues', 'euler', 'rotate', 'transform_glue']
+GEN_UNITS = ['rodrigues', 'euler', 'rotate', 'transform_glue', 'rot_xyz_around_axis', 'rotation_euler', 'translation', 'rot_axis', 'rot_euler', 'rot_mat']
 PIN_TARGETS = ['PdbVerif.Pins.D']
 RULE = ('real pdb2sql databases built from generated ATOM lines (1-30 atoms, chains A-C, coordinates with three decimals up to +-999) '
         'driven through compositions of 1-5 of translation / rot_axis / rot_euler / rot_mat, each with its own selection (everything, '
@@ -417,6 +417,18 @@ def points_close(a, b, who):
     return True
 
 
+def total(f):
+    """a comparison never raises: what it cannot make sense of is a disagreement"""
+    def g(c, out, other):
+        try:
+            return f(c, out, other)
+        except Exception as e:
+            return f'comparison impossible ({type(e).__name__}: {e}); implementation output {str(out)[:120]}'
+    g.__name__ = f.__name__
+    return g
+
+
+@total
 def agree_model(c, out, model):
     op = c['op']
     if op == 'transform_seq':
@@ -439,6 +451,7 @@ def agree_model(c, out, model):
     return True
 
 
+@total
 def agree_spec(c, out, spec):
     op = c['op']
     if op == 'transform_seq':
